@@ -9,7 +9,7 @@ open IsoMdl.Driver
 structure DState where
   world : Option IsoMdl.Session.World := none
 
-def stateless : List (List String → Option String) := [ageOp, ivOp]
+def stateless : List (List String → Option String) := [ageOp, ivOp, c13Op]
 
 def step (st : DState) (line : String) : DState × String :=
   let toks := (line.trimAscii.toString.splitOn " ").filter (· ≠ "")
